@@ -222,13 +222,16 @@ func (v *Verifier) parseSMTFuncs(text string) {
 	for i < len(toks) {
 		x := parse()
 		l, ok := x.([]interface{})
-		if !ok || len(l) < 4 {
+		if !ok || len(l) < 3 {
 			continue
 		}
 		head, _ := l[0].(string)
 		name, _ := l[1].(string)
 		switch head {
 		case "define-fun", "define-fun-rec":
+			if len(l) < 4 {
+				continue
+			}
 			params, _ := l[2].([]interface{})
 			var args []string
 			for _, p := range params {
@@ -239,6 +242,9 @@ func (v *Verifier) parseSMTFuncs(text string) {
 			}
 			v.smtFuncs[name] = smtSig{args: args, ret: str(l[3])}
 		case "declare-fun":
+			if len(l) < 4 {
+				continue
+			}
 			params, _ := l[2].([]interface{})
 			var args []string
 			for _, p := range params {
